@@ -110,14 +110,19 @@ func (s *scenario) task(i int) func() {
 
 // waitFor spins until cond holds. It gives up after a generous wall-clock
 // bound; the caller then inspects the state to decide what that means.
+// stuckWaits counts waits that gave up in this process; after a few of them the
+// remaining cases are skipped (each would cost the full bound again).
+var stuckWaits atomic.Int64
+
 func waitFor(cond func() bool) bool {
-	deadline := time.Now().Add(30 * time.Second)
+	deadline := time.Now().Add(15 * time.Second)
 	for i := 0; ; i++ {
 		if cond() {
 			return true
 		}
 		if i%64 == 63 {
 			if time.Now().After(deadline) {
+				stuckWaits.Add(1)
 				return false
 			}
 			time.Sleep(50 * time.Microsecond)
@@ -369,6 +374,10 @@ func genKinds(rng *ev.Rand, n int, pBlock, pPanic int) []int {
 
 func scenarioCase(c *ev.Case) {
 	rng := c.Rng
+	if stuckWaits.Load() >= 3 {
+		c.Add("cases_skipped_after_stuck_waits", 1)
+		return
+	}
 	limit := rng.Pick(1, 1, 2, 2, 3, 4, 5, 6, 7, 8, 0, -1, -7)
 	n := rng.Pick(1, 2, 3, 4, 5, 8, 13, 24, 40, 64)
 	var kinds []int
@@ -412,6 +421,10 @@ func scenarioCase(c *ev.Case) {
 // leakCase: p panicking tasks one after the other, then N gated tasks must all get in.
 func leakCase(c *ev.Case) {
 	rng := c.Rng
+	if stuckWaits.Load() >= 3 {
+		c.Add("cases_skipped_after_stuck_waits", 1)
+		return
+	}
 	limit := rng.Pick(1, 2, 3, 4, 0)
 	p := rng.Range(1, 12)
 	kinds := make([]int, p)
@@ -436,7 +449,7 @@ func main() {
 	r.Rule("one case = (limit, task kinds return/block/panic, handler on/off, submitter count, release order) drawn from the seed; tasks are gated by channels; distinct = distinct scenario descriptions")
 	r.Assume("the in-flight counter is incremented as the first and decremented as the last action of each submitted function; an entry that sees more than n inside is the violation witness")
 	r.Assume("Wait() is called after all Go() calls have returned")
-	r.Assume("a wait that does not complete within 30 s is a verdict only when the token channel is confirmed full (reflection) while fewer than n functions are inside; otherwise inconclusive")
+	r.Assume("a wait that does not complete within 15 s is a verdict only when the token channel is confirmed full (reflection) while fewer than n functions are inside; otherwise inconclusive")
 	r.CasesProc("scenario", r.N(12000, 300000), ev.Opt{Procs: 8, Workers: 4, AlwaysLog: true, MaxCaseSeconds: 120}, scenarioCase)
 	r.CasesProc("leak", r.N(2000, 50000), ev.Opt{Procs: 4, Workers: 4, AlwaysLog: true, MaxCaseSeconds: 120}, leakCase)
 	r.CasesProc("scenario/race", r.N(3000, 60000), ev.Opt{Bin: "race", Procs: 8, Workers: 2, AlwaysLog: true, MaxCaseSeconds: 120}, scenarioCase)
